@@ -177,7 +177,7 @@ def key_of(row):
     return row.get("k", "?")
 
 
-def validate(chk, name, module, cfg, rows, header, global_key, timeout=1800, heap="6g", specdir=SPEC, local_cfg=None):
+def validate(chk, name, module, cfg, rows, header, global_key, timeout=1800, heap="6g", specdir=SPEC, local_cfg=None, extra=()):
     """like vlib.validate_trace (a rejected line becomes a violation and validation continues without it), plus:
     GlobalOK is evaluated once after the last line; when it fails the file is re-run with `local_cfg` (the same
     condition per line) to locate the offending lines; if no single line explains it the file is reported."""
@@ -189,7 +189,7 @@ def validate(chk, name, module, cfg, rows, header, global_key, timeout=1800, hea
         rounds += 1
         rd = vlib.scratch(chk.prop, name)
         vlib.write_ndjson(os.path.join(rd, "trace.ndjson"), [header] + rows)
-        res = vlib.tlc(specdir, module, use_cfg, workers=1, timeout=timeout, rundir=rd, heap=heap)
+        res = vlib.tlc(specdir, module, use_cfg, workers=1, timeout=timeout, rundir=rd, heap=heap, extra_files=extra)
         if res.error:
             raise vlib.MachineryError("%s: %s" % (name, res.error))
         if not res.violation:
